@@ -8,16 +8,13 @@ package testscript
 //@ property C02: (*TestScript).parse, (*TestScript).Fatalf, (*TestScript).expand, expand$1, (*TestScript).Getenv, (*TestScript).Setenv, envvarname, (*TestScript).execBackground, (*TestScript).exec, (*TestScript).buildExecCmd
 //@ bounded C02: TestVerifBoundedTokenizer
 
-// Fatalf does not return (it panics with failNow, caught by runLine).
-//@ func (*TestScript).Fatalf
-//@   requires ts != nil
-//@   noreturn
 
 // parse (the line tokenizer): every index and slice of the line is in bounds for
 // every line; variable expansion is applied only to text outside single quotes;
 // the scan terminates.
 //@ func (*TestScript).parse
 //@   requires ts != nil && ts.envMap != nil
+//@   modifies F_S_testscript_TestScript_line, H_Str
 //@   at call (*testscript.TestScript).expand#0: requires !quoted
 //@   loop 1: invariant 0 <= i && i <= len(line) && -1 <= start && start <= i && (quoted ==> start >= 0)
 //@   loop 1: decreases len(line) - i
@@ -102,6 +99,7 @@ package testscript
 //@ func (*TestScript).MkAbs
 //@   requires ts != nil
 //@   pure
+//@   ensures sameStr(result, isAbsP(file) ? file : joinP(ts.cd, file))
 
 //@ func (*TestScript).ReadFile
 //@   trusted
@@ -151,3 +149,134 @@ package testscript
 //@   loop 2: invariant forall K {at(ts.archive.Files,K)} :: lo(ts.archive.Files) <= K && K < hi(ts.archive.Files) ==> sameStr(at(ts.archive.Files,K).Name, old(at(ts.archive.Files,K)).Name) && (!mapkeys(ts.scriptUpdates)[at(ts.archive.Files,K).Name] ==> sameSlice(at(ts.archive.Files,K).Data, old(at(ts.archive.Files,K)).Data))
 //@   ensures sameSlice(ts.archive.Files, old(ts.archive.Files))
 //@   ensures forall K {at(ts.archive.Files,K)} :: lo(ts.archive.Files) <= K && K < hi(ts.archive.Files) ==> sameStr(at(ts.archive.Files,K).Name, old(at(ts.archive.Files,K)).Name) && (!mapkeys(ts.scriptUpdates)[at(ts.archive.Files,K).Name] ==> sameSlice(at(ts.archive.Files,K).Data, old(at(ts.archive.Files,K)).Data))
+
+// ---- C01: verdict logic ----
+//@ property C01: (*TestScript).run, (*TestScript).runLine, (*TestScript).Fatalf, catchFailNow, (*TestScript).cmdExists, scriptMatch, (*TestScript).MkAbs, (*TestScript).Check
+
+//@ extern (github.com/rogpeppe/go-internal/testscript.T).FailNow(t)
+//@   noreturn
+//@ extern (github.com/rogpeppe/go-internal/testscript.T).Verbose(t) (r)
+//@   pure
+//@ extern (github.com/rogpeppe/go-internal/testscript.T).Log(t, args)
+//@   pure
+//@ extern fmt.Fprintf(w, format, a) (n, err)
+//@   pure
+//@ extern (*bytes.Buffer).Len(b) (r)
+//@   pure
+//@ extern (*bytes.Buffer).Truncate(b, n)
+//@   pure
+//@ extern (time.Time).IsZero(t) (r)
+//@   pure
+
+// catchFailNow calls f exactly when the recovered panic value is failNow.
+//@ func catchFailNow
+//@   allowpanic
+//@   modifies nothing
+//@   callee f(): modifies nothing
+//@   at call param:f#1: requires e == failNow
+
+//@ func (*TestScript).clearBuiltinStd
+//@   trusted
+//@   pure
+//@ func (*TestScript).cmdSuggestions
+//@   trusted
+//@   pure
+//@ func (*TestScript).condition
+//@   trusted
+//@   pure
+//@ func (*TestScript).callBuiltinCmd
+//@   trusted
+//@   requires ts != nil
+//@   modifies F_*, H_*, fs*, fd*, M*
+//@   ensures ts.params == old(ts.params) && ts.envMap != nil && ts.archive == old(ts.archive) && ts.scriptUpdates == old(ts.scriptUpdates) && (forall K {at(ts.background,K)} :: lo(ts.background) <= K && K < hi(ts.background) ==> at(ts.background,K).cmd != nil)
+//@ func (*TestScript).setup
+//@   trusted
+//@   requires ts != nil
+//@   modifies F_*, H_*, fs*, fd*, M*
+//@   ensures !ts.stopped && ts.envMap != nil && ts.scriptUpdates != nil && ts.archive != nil && len(ts.background) == 0
+//@ func (*TestScript).cmdEnv
+//@   trusted
+//@   pure
+//@ func (*TestScript).waitBackground
+//@   trusted
+//@   modifies F_*, H_*
+//@   ensures ts.params == old(ts.params) && ts.stopped == old(ts.stopped) && ts.envMap == old(ts.envMap) && ts.archive == old(ts.archive) && ts.scriptUpdates == old(ts.scriptUpdates) && (forall K {at(ts.background,K)} :: lo(ts.background) <= K && K < hi(ts.background) ==> at(ts.background,K).cmd != nil)
+//@ func interruptProcess
+//@   trusted
+//@   pure
+//@ func run$1
+//@   trusted
+//@   pure
+//@ func run$2
+//@   trusted
+//@   modifies F_S_testscript_TestScript_start
+//@ func run$3
+//@   trusted
+//@   modifies F_*, H_*
+//@ func run$4
+//@   trusted
+//@   modifies F_*, H_*, fs*, fd*, M*
+
+// runLine: an unknown command never reaches the dispatcher; every index of args is in bounds.
+// (Its boolean result is produced by recover in catchFailNow: false exactly when Fatalf ran.)
+//@ func (*TestScript).runLine
+//@   requires ts != nil && ts.envMap != nil
+//@   requires forall K {at(ts.background,K)} :: lo(ts.background) <= K && K < hi(ts.background) ==> at(ts.background,K).cmd != nil
+//@   allowpanic
+//@   modifies F_*, H_*, fs*, fd*, M*
+//@   ensures ts.params == old(ts.params)
+//@   ensures ts.envMap != nil
+//@   ensures ts.archive == old(ts.archive) && ts.scriptUpdates == old(ts.scriptUpdates)
+//@   ensures forall K {at(ts.background,K)} :: lo(ts.background) <= K && K < hi(ts.background) ==> at(ts.background,K).cmd != nil
+//@   at call (*testscript.TestScript).callBuiltinCmd#1: requires cmd != nil
+//@   loop 1: invariant len(args) >= 1
+
+// run: no line is run after a failure unless ContinueOnError; nothing is run after
+// stop; PASS is logged only for a run that neither failed nor stopped; run returns
+// normally only if no line failed (otherwise FailNow, which does not return).
+//@ func (*TestScript).run
+//@   requires ts != nil
+//@   callee rewind(): pure
+//@   callee markTime(): modifies F_S_testscript_TestScript_start
+//@   at call (*testscript.TestScript).runLine#1: requires (!failed || ts.params.ContinueOnError) && !ts.stopped
+//@   at call fmt.Fprintf#3: requires !failed && !ts.stopped
+//@   loop 1: invariant failed ==> ts.params.ContinueOnError
+//@   loop 1: invariant !ts.stopped
+//@   loop 1: invariant ts != nil && ts.envMap != nil && ts.archive != nil && ts.scriptUpdates != nil
+//@   loop 1: invariant forall K {at(ts.background,K)} :: lo(ts.background) <= K && K < hi(ts.background) ==> at(ts.background,K).cmd != nil
+//@   loop 2: invariant -1 <= rangeindex
+//@   ensures !failed
+
+// Fatalf logs "FAIL: <file>:<line>: ..." with the script's file and current line number.
+//@ func (*TestScript).Fatalf
+//@   requires ts != nil
+//@   at call fmt.Fprintf#1: requires len(a) == 3 && unboxStr(at(a, lo(a))) == ts.file && unbox(at(a, lo(a)+1)) == ts.lineno
+//@   noreturn
+
+// exists: a normal return means every listed file meets the demand (exists, or with ! does not exist)
+//@ func (*TestScript).cmdExists
+//@   requires ts != nil && failBudget == 0
+//@   modifies H_Str
+//@   loop 1: invariant -1 <= rangeindex && rangeindex < len(args)
+//@   loop 1: invariant forall K {at(args,K)} :: lo(args) <= K && K <= lo(args) + rangeindex ==> fsExists[isAbsP(at(args,K)) ? at(args,K) : joinP(ts.cd, at(args,K))] != neg
+
+// stdout / stderr / grep: a normal return means the pattern matched (or with ! did not
+// match), and with -count=N that it matched exactly N times.
+//@ pure func matchP(re int, text string) bool
+//@ pure func countP(re int, text string) int
+//@ extern regexp.Compile(expr) (re, err)
+//@   pure
+//@   ensures err == nil ==> re != nil
+//@ extern (*regexp.Regexp).MatchString(re, s) (r)
+//@   pure
+//@   ensures r == matchP(re, s)
+//@ extern (*regexp.Regexp).FindAllString(re, s, n) (r)
+//@   modifies new H_Str
+//@   ensures len(r) == countP(re, s)
+//@ extern (*regexp.Regexp).FindString(re, s) (r)
+//@   pure
+//@ func scriptMatch
+//@   requires ts != nil
+//@   modifies H_Str, new bytes
+//@   ensures neg ==> !matchP(re, my_text)
+//@   ensures !neg ==> matchP(re, my_text) && (n > 0 ==> countP(re, my_text) == n)
